@@ -6,7 +6,13 @@
    The development is done for trees WITH timeouts that the schedule does not reach ([plainT] and
    [slack], C08: a timeout that is longer than the run of its scheduler has no effect, the delay
    being counted from the beginning of that scheduler's own run); the statements about [plain]
-   trees (no timeout at all) are corollaries. *)
+   trees (no timeout at all) are corollaries.
+
+   Third generalisation: shutdown handlers that take time ([plainH], [is_scheduleH], [slackH]): a
+   scheduler ends [shut_len] after the end M of its main loop (M = the latest of its beginning and
+   of the ends of its jobs), so the jobs that require a nested scheduler start later.  The
+   statements about handlers that take no time ([plainT], [is_schedule], [slack]) are corollaries:
+   there [shut_len] is 0 and the two systems of equations coincide. *)
 From AJ Require Import Common.Util Run.RModel Run.RFacts Run.RFacts2 Run.RInv Run.RInv2 Run.RInv3 Run.RInv4
   Run.RInv5 Run.RProps1 Run.RProps3 Run.RWin Run.RProps4 Run.RShut1 Run.RShut2 Run.RTime Run.RInvP Run.RExc
   Run.RProgA Run.RFlat Run.RSchedDef.
@@ -32,10 +38,22 @@ Qed.
 
 (* ------------------------------------------------------------------ the schedule equations *)
 
+(* the end of the main loop of scheduler x: its beginning, or the end of its last job *)
+Definition Mx (c : cfg) (Sb Ef : nat -> N) (x : nat) : N := maxl (Sb x) (map Ef (members c x)).
+
+Lemma shut_len_le_d c n : (shut_len c n <= maxl 0%N (map (sdurN c) (members c n)))%N.
+Proof. unfold shut_len. destruct (j_sdto (jc c n)); lia. Qed.
+
+Lemma shut_len_le_to c n t : j_sdto (jc c n) = Some t -> (shut_len c n <= t)%N.
+Proof. intros H. unfold shut_len. rewrite H. lia. Qed.
+
+Lemma shut_len_empty c n : members c n = [] -> shut_len c n = 0%N.
+Proof. intros H. unfold shut_len. rewrite H. cbn. destruct (j_sdto (jc c n)); lia. Qed.
+
 Section Schedule.
   Variables (c : cfg) (Sb Ef : nat -> N).
   Hypothesis W : wf c = true.
-  Hypothesis HS : is_schedule c Sb Ef.
+  Hypothesis HS : is_scheduleH c Sb Ef.
 
   Lemma Sb_root : Sb 0 = 0%N.
   Proof. destruct HS as [H _]. exact H. Qed.
@@ -46,8 +64,23 @@ Section Schedule.
   Lemma Ef_atomic x : x < njobs c -> j_sched (jc c x) = false -> Ef x = (Sb x + durN c x)%N.
   Proof. intros Hx Ha. destruct HS as [_ H]. destruct (H x Hx) as (_ & A & _). auto. Qed.
 
-  Lemma Ef_sched x : x < njobs c -> j_sched (jc c x) = true -> Ef x = maxl (Sb x) (map Ef (members c x)).
-  Proof. intros Hx Ha. destruct HS as [_ H]. destruct (H x Hx) as (_ & _ & A). auto. Qed.
+  Lemma Ef_sched x : x < njobs c -> j_sched (jc c x) = true -> Ef x = (Mx c Sb Ef x + shut_len c x)%N.
+  Proof. intros Hx Ha. destruct HS as [_ H]. destruct (H x Hx) as (_ & _ & A). unfold Mx. auto. Qed.
+
+  Lemma Mx_ge_Sb x : (Sb x <= Mx c Sb Ef x)%N.
+  Proof. apply maxl_ge_base. Qed.
+
+  Lemma Mx_ge_member x m : In m (members c x) -> (Ef m <= Mx c Sb Ef x)%N.
+  Proof. intros Hm. apply maxl_ge_in. apply in_map. exact Hm. Qed.
+
+  Lemma Mx_le x b : (Sb x <= b)%N -> (forall m, In m (members c x) -> (Ef m <= b)%N) -> (Mx c Sb Ef x <= b)%N.
+  Proof.
+    intros Hb Hm. apply maxl_le; [exact Hb|].
+    intros y Hy. apply in_map_iff in Hy. destruct Hy as (m & <- & Hin). apply Hm. exact Hin.
+  Qed.
+
+  Lemma Mx_le_Ef x : x < njobs c -> j_sched (jc c x) = true -> (Mx c Sb Ef x <= Ef x)%N.
+  Proof. intros Hx Hs. rewrite (Ef_sched x Hx Hs). lia. Qed.
 
   Lemma Sb_ge_parent x : x < njobs c -> x <> 0 -> (Sb (parent c x) <= Sb x)%N.
   Proof. intros Hx H0. rewrite (Sb_eq x Hx H0). apply maxl_ge_base. Qed.
@@ -65,34 +98,27 @@ Section Schedule.
   Lemma Ef_ge_Sb x : x < njobs c -> (Sb x <= Ef x)%N.
   Proof.
     intros Hx. destruct (j_sched (jc c x)) eqn:Es.
-    - rewrite (Ef_sched x Hx Es). apply maxl_ge_base.
+    - pose proof (Mx_le_Ef x Hx Es). pose proof (Mx_ge_Sb x). lia.
     - rewrite (Ef_atomic x Hx Es). lia.
   Qed.
 
   Lemma Ef_ge_member x m : x < njobs c -> j_sched (jc c x) = true -> In m (members c x) -> (Ef m <= Ef x)%N.
-  Proof. intros Hx Hs Hm. rewrite (Ef_sched x Hx Hs). apply maxl_ge_in. apply in_map. exact Hm. Qed.
-
-  Lemma Ef_le x b : x < njobs c -> j_sched (jc c x) = true -> (Sb x <= b)%N ->
-    (forall m, In m (members c x) -> (Ef m <= b)%N) -> (Ef x <= b)%N.
-  Proof.
-    intros Hx Hs Hb Hm. rewrite (Ef_sched x Hx Hs). apply maxl_le; [exact Hb|].
-    intros y Hy. apply in_map_iff in Hy. destruct Hy as (m & <- & Hin). apply Hm. exact Hin.
-  Qed.
+  Proof. intros Hx Hs Hm. pose proof (Mx_le_Ef x Hx Hs). pose proof (Mx_ge_member x m Hm). lia. Qed.
 End Schedule.
 
 (* ------------------------------------------------------------------ plain trees *)
 
 Section Plain.
   Variable c : cfg.
-  Hypothesis P : plainT c = true.
+  Hypothesis P : plainH c = true.
 
-  Lemma plain_job_of x : x < njobs c -> plainT_job c x = true.
-  Proof. intros Hx. unfold plainT in P. rewrite forallb_forall in P. apply P. apply In_all_ids. exact Hx. Qed.
+  Lemma plain_job_of x : x < njobs c -> plainH_job c x = true.
+  Proof. intros Hx. unfold plainH in P. rewrite forallb_forall in P. apply P. apply In_all_ids. exact Hx. Qed.
 
   Lemma plain_sched n : n < njobs c -> j_sched (jc c n) = true ->
     j_window (jc c n) = 0 /\ (n <> 0 -> j_forever (jc c n) = false).
   Proof.
-    intros Hn Hs. pose proof (plain_job_of n Hn) as H. unfold plainT_job in H. rewrite Hs in H.
+    intros Hn Hs. pose proof (plain_job_of n Hn) as H. unfold plainH_job in H. rewrite Hs in H.
     rewrite !andb_true_iff in H. destruct H as [H1 H3].
     apply Nat.eqb_eq in H1. split; [exact H1|].
     - intros H0. apply orb_true_iff in H3. destruct H3 as [H3|H3].
@@ -101,13 +127,13 @@ Section Plain.
   Qed.
 
   Lemma plain_atomic x : x < njobs c -> j_sched (jc c x) = false ->
-    (exists d, j_dur (jc c x) = Some d) /\ j_forever (jc c x) = false /\ j_sdur (jc c x) = Some 0%N.
+    (exists d, j_dur (jc c x) = Some d) /\ j_forever (jc c x) = false /\ (exists d, j_sdur (jc c x) = Some d).
   Proof.
-    intros Hx Hs. pose proof (plain_job_of x Hx) as H. unfold plainT_job in H. rewrite Hs in H.
+    intros Hx Hs. pose proof (plain_job_of x Hx) as H. unfold plainH_job in H. rewrite Hs in H.
     rewrite !andb_true_iff in H. destruct H as [[H1 H2] H3].
     split; [destruct (j_dur (jc c x)) as [d|]; [exists d; reflexivity|discriminate]|].
     split; [apply negb_true_iff in H2; exact H2|].
-    destruct (j_sdur (jc c x)) as [[|p]|]; try discriminate. reflexivity.
+    destruct (j_sdur (jc c x)) as [d|]; [exists d; reflexivity|discriminate].
   Qed.
 
   Lemma plain_not_forever x : x < njobs c -> x <> 0 -> j_forever (jc c x) = false.
@@ -171,6 +197,45 @@ Qed.
 Lemma plain_slack c Sb Ef : plain c = true -> slack c Sb Ef.
 Proof. intros P n T Hn Hs Ht. rewrite (plain_no_timeout c n P Hn Hs) in Ht. discriminate. Qed.
 
+(* handlers that take no time are handlers that take some finite time *)
+Lemma plainT_plainH c : plainT c = true -> plainH c = true.
+Proof.
+  unfold plainT, plainH. rewrite !forallb_forall. intros H x Hx. specialize (H x Hx).
+  unfold plainT_job in H. unfold plainH_job. destruct (j_sched (jc c x)); [exact H|].
+  rewrite !andb_true_iff in H. destruct H as [[H1 H2] H3]. rewrite H1, H2. cbn [andb].
+  destruct (j_sdur (jc c x)); [reflexivity|discriminate].
+Qed.
+
+Lemma maxl_zero l : (forall x, In x l -> x = 0%N) -> maxl 0%N l = 0%N.
+Proof.
+  unfold maxl. induction l as [|a l IH]; intros H; [reflexivity|]. cbn [fold_right].
+  rewrite (H a (or_introl eq_refl)), IH; [reflexivity|]. intros x Hx. apply H. right. exact Hx.
+Qed.
+
+(* ... and then the shutdown phase of every scheduler takes no time *)
+Lemma shut_len_plainT c n : plainT c = true -> shut_len c n = 0%N.
+Proof.
+  intros P. assert (Hd : maxl 0%N (map (sdurN c) (members c n)) = 0%N).
+  { apply maxl_zero. intros y Hy. apply in_map_iff in Hy. destruct Hy as (x & <- & Hx).
+    apply In_members in Hx. destruct Hx as (Hx & _).
+    unfold plainT in P. rewrite forallb_forall in P. specialize (P x (proj2 (In_all_ids c x) Hx)).
+    unfold plainT_job in P. unfold sdurN. destruct (j_sched (jc c x)); [reflexivity|].
+    rewrite !andb_true_iff in P. destruct P as [_ P]. destruct (j_sdur (jc c x)) as [[|p]|]; try discriminate. reflexivity. }
+  unfold shut_len. rewrite Hd. destruct (j_sdto (jc c n)); lia.
+Qed.
+
+Lemma plain_scheduleH c S E : plainT c = true -> (is_schedule c S E <-> is_scheduleH c S E).
+Proof.
+  intros P. unfold is_schedule, is_scheduleH. split; intros [H0 H]; (split; [exact H0|]); intros x Hx;
+    destruct (H x Hx) as (A & B & C); (split; [exact A|]); (split; [exact B|]); intros Hs;
+    rewrite (C Hs), (shut_len_plainT c x P); lia.
+Qed.
+
+Lemma slack_slackH c S E : is_schedule c S E -> slack c S E -> slackH c S E.
+Proof.
+  intros [_ H] SL n T Hn Hs HT. destruct (H n Hn) as (_ & _ & C). rewrite <- (C Hs). apply (SL n T Hn Hs HT).
+Qed.
+
 Lemma slackb_sound c lS lE : slackb c lS lE = true -> slack c (tab lS) (tab lE).
 Proof.
   unfold slackb. rewrite forallb_forall. intros H n T Hn Hs Ht.
@@ -189,6 +254,29 @@ Definition idle_all (s : state) : Prop :=
   (forall x, st (Jb s x) = Idle) /\ (forall n, ph (Rn s n) = PIdle) /\
   (forall x, Hd s x = init_h) /\ (forall n, Sd s n = init_s).
 
+(* the shutdown wait of n, which began at M with delay j_sdto, has expired *)
+Definition late (c : cfg) (M : N) (s : state) (n : nat) : Prop :=
+  exists t, j_sdto (jc c n) = Some t /\ (M + t <= now s)%N.
+
+(* the handler of the atomic job x of n, the shutdown of n having begun at M: it started at M, ends
+   at M + its duration, and is cancelled only once the shutdown wait has expired *)
+Definition hd_ok (c : cfg) (M : N) (s : state) (n x : nat) : Prop :=
+  match hs (Hd s x) with
+  | HNone => True
+  | HCreated => now s = M
+  | HRunning => hend (Hd s x) = Some (M + sdurN c x)%N /\ (hcp (Hd s x) = true -> late c M s n)
+  | HDone => (M + sdurN c x <= now s)%N
+  | HCancelled => late c M s n
+  end.
+
+(* the inline shutdown phase of n: it begins at M, the end of the main loop, and lasts shut_len *)
+Definition shut_ok (c : cfg) (Sb Ef : nat -> N) (s : state) (n : nat) : Prop :=
+  let M := Mx c Sb Ef n in
+  (M <= now s)%N /\ (now s <= M + shut_len c n)%N /\
+  (sp (Sd s n) = SdWait -> sdl (Sd s n) = optN_add M (j_sdto (jc c n))) /\
+  (sp (Sd s n) = SdTidy -> late c M s n) /\
+  (forall x, In x (members c n) -> j_sched (jc c x) = false -> hd_ok c M s n x).
+
 Record Sch (c : cfg) (Sb Ef : nat -> N) (s : state) : Prop := {
   s_job : forall x, x < njobs c -> x <> 0 -> on_schedule c Sb Ef s x;
   s_cp : forall x, cp (Jb s x) = false;
@@ -204,7 +292,9 @@ Record Sch (c : cfg) (Sb Ef : nat -> N) (s : state) : Prop := {
   (* timeouts: the expiration of a run is counted from its own beginning, and the root does not
      outlive its schedule while in its main loop (nested schedulers: by s_job) *)
   s_expi : forall n, ph (Rn s n) = PMain -> expi (Rn s n) = optN_add (Sb n) (j_timeout (jc c n));
-  s_root_main : ph (Rn s 0) = PMain -> (now s <= Ef 0%nat)%N
+  s_mainM : forall n, n < njobs c -> j_sched (jc c n) = true ->
+            ph (Rn s n) = PMain \/ ph (Rn s n) = PTidy WSuccess -> (now s <= Mx c Sb Ef n)%N;
+  s_shut : forall n, ph (Rn s n) = PShut WSuccess -> shut_ok c Sb Ef s n
 }.
 
 Lemma idle_all_init : idle_all init.
@@ -217,6 +307,7 @@ Proof.
   - intros n. left. reflexivity.
   - intros _. split; [apply idle_all_init|reflexivity].
   - intros x. unfold crit_exc. cbn. apply andb_false_r.
+  - intros n _ _ [H|H]; discriminate.
 Qed.
 
 (* the standard invariants of a reachable state, in one bundle *)
@@ -260,8 +351,8 @@ Qed.
 Section State.
   Variables (c : cfg) (Sb Ef : nat -> N) (s : state).
   Hypothesis W : wf c = true.
-  Hypothesis P : plainT c = true.
-  Hypothesis HS : is_schedule c Sb Ef.
+  Hypothesis P : plainH c = true.
+  Hypothesis HS : is_scheduleH c Sb Ef.
   Hypothesis SD : Std c s.
   Hypothesis SC : Sch c Sb Ef s.
 
@@ -396,48 +487,51 @@ Section State.
     rewrite orb_true_r in He. discriminate.
   Qed.
 
-  Lemma quiet_handlers_fin n : ph (Rn s n) = PShut WSuccess -> forall z, In z (members c n) -> hfin s z = true.
+  (* at quiescence a handler that is not finished is that of an atomic job, running, not
+     cancelled, with its end ahead *)
+  Lemma quiet_unfin n z : did (Sd s n) = true -> In z (members c n) -> hfin s z = false ->
+    j_sched (jc c z) = false /\ hs (Hd s z) = HRunning /\ hcp (Hd s z) = false /\
+    opt_le_now s (hend (Hd s z)) = false.
   Proof.
-    intros Ep z Hz.
-    assert (Hact : sd_active (sp (Sd s n))) by (apply (q_inl c s IQ); unfold sd_inline; rewrite Ep; reflexivity).
-    pose proof (active_did c s n I8 Hact) as Hdid.
-    destruct (hfin s z) eqn:Hzf; [reflexivity|exfalso].
+    intros Hdid Hz Hzf.
     pose proof (proj1 (In_members c n z) Hz) as (Hzl & Hzp & Hz0).
     pose proof (k_some c s I8 n z Hz Hdid) as Hnn.
     pose proof (quiescent_handler c s z Hq Hzl) as Hen. unfold handler_enabled in Hen. cbn zeta in Hen.
     unfold hfin in Hzf. destruct (hs (Hd s z)) eqn:Ehz; try discriminate.
-    - apply Hnn. reflexivity.
+    - exfalso. apply Hnn. reflexivity.
     - destruct (j_sched (jc c z)) eqn:Ezs.
-      + apply (s_hr c Sb Ef s SC z Ezs Ehz).
-      + destruct (sd_H c s SD z Ezs Ehz) as (t0 & Et & Hle).
-        destruct (plain_atomic c P z Hzl Ezs) as (_ & _ & Zd). rewrite Et, Zd in Hen.
-        cbn [optN_add opt_le_now] in Hen. apply orb_false_iff in Hen. destruct Hen as [_ Hen].
-        apply N.leb_gt in Hen. lia.
+      + exfalso. apply (s_hr c Sb Ef s SC z Ezs Ehz).
+      + apply orb_false_iff in Hen. destruct Hen as [A B]. auto.
   Qed.
 
-  Lemma quiet_not_shut n : n < njobs c -> j_sched (jc c n) = true -> ph (Rn s n) <> PShut WSuccess.
+  (* a quiescent inline shutdown is in its wait, which has not expired, for a handler still running *)
+  Lemma quiet_shut n : n < njobs c -> j_sched (jc c n) = true -> ph (Rn s n) = PShut WSuccess ->
+    sp (Sd s n) = SdWait /\ opt_le_now s (sdl (Sd s n)) = false /\
+    exists z, In z (members c n) /\ j_sched (jc c z) = false /\ hs (Hd s z) = HRunning /\
+              hcp (Hd s z) = false /\ opt_le_now s (hend (Hd s z)) = false.
   Proof.
     intros Hn Hs Ep. pose proof (quiescent_run c s n Hq Hn Hs) as He. unfold run_enabled in He. cbn zeta in He.
     rewrite Ep in He.
     assert (Hact : sd_active (sp (Sd s n))) by (apply (q_inl c s IQ); unfold sd_inline; rewrite Ep; reflexivity).
-    pose proof (quiet_handlers_fin n Ep) as Hzf.
+    pose proof (active_did c s n I8 Hact) as Hdid.
     unfold sd_enabled in He. cbn zeta in He. destruct Hact as [E|E]; rewrite E in He.
-    - apply orb_false_iff in He. destruct He as [He _]. apply orb_false_iff in He. destruct He as [_ He].
-      assert (Hx : forallb (hfin s) (members c n) = true) by (apply forallb_forall; exact Hzf).
-      congruence.
-    - apply orb_false_iff in He. destruct He as [_ He].
-      assert (Hx : forallb (hfin s) (spend (Sd s n)) = true).
-      { apply forallb_forall. intros z Hz. apply Hzf. apply (k_spend c s I8 n z Hz). }
-      congruence.
+    - apply orb_false_iff in He. destruct He as [He He3]. apply orb_false_iff in He. destruct He as [_ He].
+      split; [exact E|]. split; [exact He3|].
+      destruct (forallb_false _ _ _ He) as (z & Hz & Hzf). exists z. split; [exact Hz|].
+      apply (quiet_unfin n z Hdid Hz Hzf).
+    - exfalso. apply orb_false_iff in He. destruct He as [_ He].
+      destruct (forallb_false _ _ _ He) as (z & Hz & Hzf).
+      pose proof (k_spend c s I8 n z Hz) as Hzm.
+      destruct (quiet_unfin n z Hdid Hzm Hzf) as (Za & Zr & Zc & _).
+      destruct (q_spcp c s IQ n z E Hz) as [H|[H|(H & _)]]; congruence.
   Qed.
 
-  (* a quiescent run that has begun and is not over is in its main loop *)
+  (* the phases of a quiescent run *)
   Lemma quiet_phase n : n < njobs c -> j_sched (jc c n) = true ->
-    ph (Rn s n) = PIdle \/ ph (Rn s n) = PMain \/ ph (Rn s n) = POver.
+    ph (Rn s n) = PIdle \/ ph (Rn s n) = PMain \/ ph (Rn s n) = PShut WSuccess \/ ph (Rn s n) = POver.
   Proof.
     intros Hn Hs. destruct (s_ph c Sb Ef s SC n) as [E|[E|[E|[E|E]]]]; auto; exfalso.
-    - apply (quiet_not_tidy n Hn Hs E).
-    - apply (quiet_not_shut n Hn Hs E).
+    apply (quiet_not_tidy n Hn Hs E).
   Qed.
 
   (* a quiescent main loop is waiting for one of its jobs *)
@@ -510,6 +604,25 @@ Section State.
     - apply Hdl. apply (In_deadlines_job c s z (Ef z) Hz Ha (or_introl Hst) Ht). lia.
   Qed.
 
+  (* a shutdown phase does not last longer than shut_len *)
+  Lemma tick_shut n : n < njobs c -> j_sched (jc c n) = true -> ph (Rn s n) = PShut WSuccess ->
+    (t <= Mx c Sb Ef n + shut_len c n)%N.
+  Proof.
+    intros Hn Hs Ep. destruct (quiet_shut n Hn Hs Ep) as (Ew & Hsdl & z & Hz & Hza & Hzr & Hzc & Hze).
+    destruct (s_shut c Sb Ef s SC n Ep) as (HM1 & HM2 & Hw & _ & Hh). specialize (Hw Ew).
+    pose proof (Hh z Hz Hza) as Hz'. unfold hd_ok in Hz'. rewrite Hzr in Hz'. destruct Hz' as [Hend _].
+    pose proof (proj1 (In_members c n z) Hz) as (Hzl & _ & _).
+    assert (H1 : (t <= Mx c Sb Ef n + sdurN c z)%N).
+    { rewrite Hend in Hze. cbn [opt_le_now] in Hze. apply N.leb_gt in Hze.
+      apply Hdl. apply (In_deadlines_handler c s z _ Hzl Hza Hzr Hend Hze). }
+    assert (H2 : (sdurN c z <= maxl 0%N (map (sdurN c) (members c n)))%N) by (apply maxl_ge_in; apply in_map; exact Hz).
+    unfold shut_len. destruct (j_sdto (jc c n)) as [to|] eqn:Eto; [|lia].
+    cbn [optN_add] in Hw. rewrite Hw in Hsdl. cbn [opt_le_now] in Hsdl. apply N.leb_gt in Hsdl.
+    assert (H3 : (t <= Mx c Sb Ef n + to)%N).
+    { apply Hdl. apply (In_deadlines_sd c s n _ (proj2 (sched_id_iff c n) (conj Hs Hn)) Ew Hw Hsdl). }
+    lia.
+  Qed.
+
   (* below a scheduler in its main loop *)
   Lemma tick_level : forall fuel p, njobs c - p < fuel -> p < njobs c -> j_sched (jc c p) = true ->
     ph (Rn s p) = PMain ->
@@ -531,11 +644,10 @@ Section State.
     - exfalso. apply (quiet_not_created z Hzl Hz0 Est).
     - split; [|intros [E|E]; rewrite E in Est; discriminate].
       destruct (j_sched (jc c z)) eqn:Ezs.
-      + (* a nested scheduler in its main loop *)
-        assert (Epz : ph (Rn s z) = PMain).
-        { destruct (running_main_or_exit z Hz0 Ezs Est) as [E|[E|E]]; [exact E|exfalso|exfalso].
-          - apply (quiet_not_tidy z Hzl Ezs E).
-          - apply (quiet_not_shut z Hzl Ezs E). }
+      + (* a nested scheduler, in its main loop or in its shutdown phase *)
+        destruct (running_main_or_exit z Hz0 Ezs Est) as [Epz|[E|E]];
+          [|exfalso; apply (quiet_not_tidy z Hzl Ezs E)
+           |rewrite (Ef_sched c Sb Ef HS z Hzl Ezs); apply (tick_shut z Hzl Ezs E)].
         destruct (main_has_undone z Hzl Ezs Epz) as (m & Hm & Hmd).
         destruct (wf_parent c z W Hzl Hz0) as [Hpl _]. rewrite Hzp in Hpl.
         destruct (IHf z) with (z := m) as [Hr _]; [lia|exact Hzl|exact Ezs|exact Epz|exact Hm|exact Hmd|].
@@ -558,11 +670,12 @@ Section State.
     assert (Hpn : parent c x < njobs c) by lia.
     assert (Hm : In x (members c (parent c x))) by (apply In_members; auto).
     assert (Hnd : is_done (st (Jb s x)) = false) by (destruct Hst as [E|E]; rewrite E; reflexivity).
-    destruct (quiet_phase (parent c x) Hpn Hps) as [Ep|[Ep|Ep]].
+    destruct (quiet_phase (parent c x) Hpn Hps) as [Ep|[Ep|[Ep|Ep]]].
     - destruct (Nat.eq_dec (parent c x) 0) as [E0|E0]; [rewrite E0 in Ep; contradiction|].
       pose proof (IH (parent c x) Hpl Hpn E0 (idle_unstarted _ Hpn E0 Hps Ep)) as H1.
       pose proof (Sb_ge_parent c Sb Ef HS x Hx H0). lia.
     - destruct (tick_level (S (njobs c)) (parent c x)) with (z := x) as [_ H]; auto; lia.
+    - rewrite (exit_members_done (parent c x) x (or_intror (or_introl Ep)) Hm) in Hnd. discriminate.
     - rewrite (s_over_done c Sb Ef s SC _ x Ep Hm) in Hnd. discriminate.
   Qed.
 
@@ -576,9 +689,10 @@ Section State.
     destruct (st_cases x Hx H0) as [Est|[Est|[Est|Est]]].
     - pose proof (tick_unstarted x Hx H0 (or_introl Est)). pose proof (Ef_ge_Sb c Sb Ef HS x Hx). lia.
     - pose proof (tick_unstarted x Hx H0 (or_intror Est)). pose proof (Ef_ge_Sb c Sb Ef HS x Hx). lia.
-    - destruct (quiet_phase (parent c x) Hpn Hps) as [Ep|[Ep|Ep]].
+    - destruct (quiet_phase (parent c x) Hpn Hps) as [Ep|[Ep|[Ep|Ep]]].
       + rewrite (i_idle c s I1 _ x Hm Ep) in Est. discriminate.
       + destruct (tick_level (S (njobs c)) (parent c x)) with (z := x) as [H _]; auto; lia.
+      + rewrite (exit_members_done (parent c x) x (or_intror (or_introl Ep)) Hm) in Hnd. discriminate.
       + rewrite (s_over_done c Sb Ef s SC _ x Ep Hm) in Hnd. discriminate.
     - rewrite Est in Hnd. discriminate.
   Qed.
@@ -597,7 +711,10 @@ Proof.
   - destruct Hg as (_ & G & _). rewrite holds_0 in G. rewrite Ep in G. discriminate.
 Qed.
 
-Lemma Sch_tick c Sb Ef s e s' : wf c = true -> plainT c = true -> is_schedule c Sb Ef -> Std c s ->
+Lemma late_mono c M s s' n : (now s <= now s')%N -> late c M s n -> late c M s' n.
+Proof. intros Hle (t & Ht & H). exists t. split; [exact Ht|lia]. Qed.
+
+Lemma Sch_tick c Sb Ef s e s' : wf c = true -> plainH c = true -> is_scheduleH c Sb Ef -> Std c s ->
   Sch c Sb Ef s -> step 3 c s e = Some s' -> is_tick e = true -> Sch c Sb Ef s'.
 Proof.
   intros W P HS SD SC Hs Ht.
@@ -621,11 +738,27 @@ Proof.
   - rewrite ER, ES. apply (s_did c Sb Ef s SC).
   - intros x. unfold crit_exc. rewrite EJ. apply (s_nce c Sb Ef s SC x).
   - rewrite ER. apply (s_expi c Sb Ef s SC).
-  - rewrite ER. intros Ep. destruct (wf_root c W) as [Hrs Hrl].
-    destruct (main_has_undone c s P SD Hq 0 Hrl Hrs Ep) as (m & Hm & Hmd).
-    pose proof (proj1 (In_members c 0 m) Hm) as (Hml & _ & Hm0).
-    pose proof (tick_undone c Sb Ef s W P HS SD SC Hq (now s') Hlt Hdl Hroot m Hml Hm0 Hmd) as H1.
-    pose proof (Ef_ge_member c Sb Ef HS 0 m Hrl Hrs Hm). lia.
+  - rewrite ER. intros n Hn Hsn [Ep|Ep].
+    + destruct (main_has_undone c s P SD Hq n Hn Hsn Ep) as (m & Hm & Hmd).
+      pose proof (proj1 (In_members c n m) Hm) as (Hml & _ & Hm0).
+      pose proof (tick_undone c Sb Ef s W P HS SD SC Hq (now s') Hlt Hdl Hroot m Hml Hm0 Hmd) as H1.
+      pose proof (Mx_ge_member c Sb Ef n m Hm). lia.
+    + exfalso. eapply quiet_not_tidy; eauto.
+  - rewrite ER. intros n Ep. destruct (s_shut c Sb Ef s SC n Ep) as (A & B & C & D & F).
+    assert (Hsi : sched_id c n = true) by (apply (t_validr c s (sd_T c s SD)); rewrite Ep; discriminate).
+    apply sched_id_iff in Hsi. destruct Hsi as [Hsn Hn].
+    assert (Hle : (now s <= now s')%N) by lia.
+    unfold shut_ok. cbn zeta. rewrite ES. split; [lia|]. split.
+    { eapply tick_shut; eauto. }
+    split; [exact C|]. split; [intros H; apply (late_mono c _ s s' n Hle (D H))|].
+    intros x Hx Hxa. pose proof (F x Hx Hxa) as Hh. unfold hd_ok in *. rewrite EH.
+    destruct (hs (Hd s x)) eqn:Ehx.
+    + exact I.
+    + exfalso. pose proof (proj1 (In_members c n x) Hx) as (Hxl & _ & _).
+      pose proof (quiescent_handler c s x Hq Hxl) as Hen. unfold handler_enabled in Hen. rewrite Ehx in Hen. discriminate.
+    + destruct Hh as [H1 H2]. split; [exact H1|]. intros H. apply (late_mono c _ s s' n Hle (H2 H)).
+    + lia.
+    + apply (late_mono c _ s s' n Hle Hh).
 Qed.
 
 (* ------------------------------------------------------------------ two facts about single events *)
@@ -713,6 +846,67 @@ Proof.
   - exfalso. split_guards Hg. rewrite Hst in G0. discriminate.
 Qed.
 
+(* the shutdown handler of an atomic job ends at its deadline *)
+Lemma handler_done_at c s e s' x : wf c = true -> Inv8 c s -> step 3 c s e = Some s' ->
+  j_sched (jc c x) = false -> hs (Hd s x) = HRunning -> hs (Hd s' x) = HDone -> hend (Hd s x) = Some (now s).
+Proof.
+  intros W I8 Hs Ha Hr Hd'. destruct (step_inv _ _ _ _ _ Hs) as [Es' Hg]. subst s'.
+  assert (Hns : sched_id c x = true -> False).
+  { intros H. apply sched_id_iff in H. destruct H as [H _]. congruence. }
+  assert (Hact : sd_active (sp (Sd s x)) -> False).
+  { intros H. apply Hns. apply (k_valid c s I8). apply (active_did c s x I8 H). }
+  assert (Hsame : hs (Hd s x) = HDone -> hend (Hd s x) = Some (now s)) by (intros H; rewrite Hr in H; discriminate).
+  assert (Hcre : forall n, hs (if did (Sd s n) then Hd s x else if memb x (members c n) then create_h (Hd s x) else Hd s x) = HDone ->
+                           hend (Hd s x) = Some (now s)).
+  { intros n H. destruct (did (Sd s n)); [auto|]. destruct (memb x (members c n)); [discriminate|auto]. }
+  destruct e as [n o|n k d o|n k o|n o|j|j oc|j|j|j|j|j|j|j|j|t|t|jv sv]; cbn [reaction fst] in Hd'; try (apply Hsame; exact Hd').
+  - destruct (HS_react_begin c n s) as (E & _). rewrite E in Hd'. auto.
+  - destruct k; cbn [reaction fst] in Hd'.
+    + pose proof (HS_react_main c n d s) as H. cbn zeta in H. destruct H as (_ & _ & [(H & _)|(_ & H & _)]); rewrite H in Hd'; eauto.
+    + pose proof (HS_react_tidy c n s) as H. cbn zeta in H. destruct H as (_ & _ & [(_ & _ & H & _)|(_ & _ & H & _)]); rewrite H in Hd'; eauto.
+    + rewrite Hd_end_cancelled in Hd'. auto.
+    + pose proof (HS_react_shut c n d (culprit_of o) s) as H. cbn zeta in H. destruct H as (_ & _ & H).
+      destruct d as [|d0 d'].
+      * destruct H as (_ & H). destruct (sd_inline s n).
+        -- destruct H as [_ H]. rewrite H in Hd'. auto.
+        -- destruct H as [_ H]. rewrite H in Hd'. destruct (Nat.eqb_spec x n) as [->|Hx]; [|auto].
+           exfalso. split_guards Hg. rewrite ?holds3 in * by lia. apply Hact. left.
+           destruct (sp (Sd s n)); try discriminate. reflexivity.
+      * destruct H as (_ & _ & H). rewrite H in Hd'. destruct (memb x (d0 :: d')); [|auto].
+        destruct (cancel_h_hs (Hd s x)) as [E _]. rewrite E in Hd'. auto.
+    + pose proof (HS_react_shtidy c n (culprit_of o) s) as H. cbn zeta in H. destruct H as (_ & _ & _ & H).
+      destruct (sd_inline s n).
+      * destruct H as [_ H]. rewrite H in Hd'. auto.
+      * destruct H as [_ H]. rewrite H in Hd'. destruct (Nat.eqb_spec x n) as [->|Hx]; [|auto].
+        exfalso. split_guards Hg. rewrite ?holds3 in * by lia. apply Hact. right.
+        destruct (sp (Sd s n)); try discriminate. reflexivity.
+  - destruct k; cbn [reaction fst] in Hd'.
+    + destruct (HS_react_cancel_main c n s) as (E & _). rewrite E in Hd'. auto.
+    + destruct (HS_react_cancel_tidy c n s) as (E & _). rewrite E in Hd'. auto.
+    + destruct (HS_react_cancel_ctidy c n s) as (E & _). rewrite E in Hd'. auto.
+    + pose proof (HS_react_cancel_shut c n s) as H. cbn zeta in H. destruct H as (_ & _ & _ & H). rewrite H in Hd'.
+      exfalso. destruct (memb x (sd_cancel_list c s n));
+        [match type of Hd' with hs (cancel_h ?a) = _ => destruct (cancel_h_hs a) as [E _]; rewrite E in Hd' end|];
+        destruct (sd_inline s n); try (rewrite Hr in Hd'; discriminate);
+        destruct (Nat.eqb_spec x n) as [->|Hx]; cbn [hs] in Hd'; rewrite Hr in Hd'; discriminate.
+    + pose proof (HS_react_cancel_shut c n s) as H. cbn zeta in H. destruct H as (_ & _ & _ & H). rewrite H in Hd'.
+      exfalso. destruct (memb x (sd_cancel_list c s n));
+        [match type of Hd' with hs (cancel_h ?a) = _ => destruct (cancel_h_hs a) as [E _]; rewrite E in Hd' end|];
+        destruct (sd_inline s n); try (rewrite Hr in Hd'; discriminate);
+        destruct (Nat.eqb_spec x n) as [->|Hx]; cbn [hs] in Hd'; rewrite Hr in Hd'; discriminate.
+  - pose proof (HS_react_sdstart c n s W) as H. cbn zeta in H. destruct H as (_ & _ & _ & H). rewrite H in Hd'.
+    destruct (Nat.eqb_spec x n) as [->|Hx]; [|eauto].
+    exfalso. split_guards Hg. auto.
+  - cbn [Hd setH] in Hd'. unfold upd in Hd'. destruct (Nat.eqb x j); [discriminate|auto].
+  - cbn [Hd setH] in Hd'. unfold upd in Hd'. destruct (Nat.eqb_spec x j) as [->|Hx]; [|auto].
+    split_guards Hg. rewrite ?holds3 in * by lia.
+    destruct (j_sdur (jc c j)); [|discriminate]. unfold opt_eq_now in *.
+    destruct (hend (Hd s j)) as [d|]; [|discriminate].
+    match goal with G : N.eqb d (now s) = true |- _ => apply N.eqb_eq in G; rewrite G; reflexivity end.
+  - cbn [Hd setH] in Hd'. unfold upd in Hd'. destruct (Nat.eqb x j); [discriminate|auto].
+  - cbn [Hd setH] in Hd'. unfold upd in Hd'. destruct (Nat.eqb x j); [discriminate|auto].
+Qed.
+
 (* a run enters the exit path "timeout" only from its main loop, at or after its expiration *)
 Lemma timeout_from c s e s' m : step 3 c s e = Some s' -> tmo_ph (ph (Rn s' m)) ->
   tmo_ph (ph (Rn s m)) \/
@@ -783,9 +977,9 @@ Qed.
 Section Step.
   Variables (c : cfg) (Sb Ef : nat -> N) (s s' : state) (e : event).
   Hypothesis W : wf c = true.
-  Hypothesis P : plainT c = true.
-  Hypothesis HS : is_schedule c Sb Ef.
-  Hypothesis SL : slack c Sb Ef.
+  Hypothesis P : plainH c = true.
+  Hypothesis HS : is_scheduleH c Sb Ef.
+  Hypothesis SL : slackH c Sb Ef.
   Hypothesis SD : Std c s.
   Hypothesis SD' : Std c s'.
   Hypothesis SC : Sch c Sb Ef s.
@@ -889,10 +1083,7 @@ Section Step.
           rewrite (s_expi c Sb Ef s SC n Hpm) in Hx.
           destruct (j_timeout (jc c n)) as [T|] eqn:ET; [|discriminate]. cbn [optN_add] in Hx. injection Hx as Hx.
           pose proof (SL n T Hnl Hsn ET) as Hsl.
-          assert (Hnow : (now s <= Ef n)%N).
-          { destruct (Nat.eq_dec n 0) as [->|H0]; [apply (s_root_main c Sb Ef s SC Hpm)|].
-            assert (Hst : st (Jb s n) = Running) by (apply (k_act c s I3 n H0 Hsn); rewrite Hpm; discriminate).
-            pose proof (s_job c Sb Ef s SC n Hnl H0) as Hj. unfold on_schedule in Hj. rewrite Hst in Hj. tauto. }
+          pose proof (s_mainM c Sb Ef s SC n Hnl Hsn (or_introl Hpm)) as Hnow. unfold Mx in Hnow.
           lia.
         * exfalso. destruct Hm as (_ & Hm & _). apply existsb_exists in Hm. destruct Hm as (x & _ & Hx).
           rewrite (s_nce c Sb Ef s SC x) in Hx. discriminate.
@@ -1008,11 +1199,58 @@ Section Step.
         pose proof (s_job c Sb Ef s SC n Hnl H0) as Hj. unfold on_schedule in Hj. rewrite Est in Hj. lia.
   Qed.
 
-  Lemma step_root_main : ph (Rn s' 0) = PMain -> (now s' <= Ef 0%nat)%N.
+  Lemma step_mainM n : n < njobs c -> j_sched (jc c n) = true ->
+    ph (Rn s' n) = PMain \/ ph (Rn s' n) = PTidy WSuccess -> (now s' <= Mx c Sb Ef n)%N.
   Proof.
-    intros Ep'. rewrite En. destruct (main_from 3 c s e s' 0 W I1 Hs Ep') as [E|E].
-    - apply (s_root_main c Sb Ef s SC E).
-    - destruct (s_root_idle c Sb Ef s SC E) as [_ E0]. rewrite E0. lia.
+    intros Hn Hsn Hp'. rewrite En.
+    destruct (phase_step n) as [H|[(H & _)|[(H & _)|[(_ & H)|(_ & H)]]]].
+    - apply (s_mainM c Sb Ef s SC n Hn Hsn). rewrite <- H. exact Hp'.
+    - pose proof (idle_Sb c Sb Ef s SD SC n Hn Hsn H). pose proof (Mx_ge_Sb c Sb Ef n). lia.
+    - apply (s_mainM c Sb Ef s SC n Hn Hsn). left. exact H.
+    - destruct Hp' as [E|E]; rewrite E in H; discriminate.
+    - destruct Hp' as [E|E]; rewrite E in H; discriminate.
+  Qed.
+
+  (* ---------- the end of a shutdown phase ---------- *)
+
+  Lemma late_shut_len n M : late c M s n -> (M + shut_len c n <= now s)%N.
+  Proof. intros (t & Hto & H). pose proof (shut_len_le_to c n t Hto). lia. Qed.
+
+  Lemma maxl_bound (M : N) (f : nat -> N) (L : Prop) l : (M <= now s)%N ->
+    (forall x, In x l -> (M + f x <= now s)%N \/ L) -> (M + maxl 0%N (map f l) <= now s)%N \/ L.
+  Proof.
+    intros HM. unfold maxl. induction l as [|a l IH]; intros H; cbn [map fold_right]; [left; lia|].
+    destruct (H a (or_introl eq_refl)) as [H1|H1]; [|right; exact H1].
+    destruct IH as [H2|H2]; [intros x Hx; apply H; right; exact Hx| |right; exact H2]. left. lia.
+  Qed.
+
+  (* a shutdown phase does not end before shut_len has elapsed *)
+  Lemma finish_bound n : ph (Rn s n) = PShut WSuccess -> ph (Rn s' n) = POver ->
+    (Mx c Sb Ef n + shut_len c n <= now s)%N.
+  Proof.
+    intros Ep Ep'. destruct (s_shut c Sb Ef s SC n Ep) as (A & B & C & D & F).
+    assert (Hin : sd_inline s n = true) by (unfold sd_inline; rewrite Ep; reflexivity).
+    assert (Hin' : sd_inline s' n = false) by (unfold sd_inline; rewrite Ep'; reflexivity).
+    assert (Hne : ph (Rn s' n) <> ph (Rn s n)) by (rewrite Ep, Ep'; discriminate).
+    pose proof HH as H. hs_cases H.
+    - rewrite hC in Hin'. congruence.
+    - exfalso. destruct (Nat.eq_dec n n0) as [->|Hn]; [congruence|apply Hne; apply hO; exact Hn].
+    - exfalso. apply Hne. apply hO.
+    - destruct (Nat.eq_dec n n0) as [->|Hn]; [|exfalso; apply Hne; apply hO; exact Hn].
+      assert (Hall : forall x, In x (members c n0) ->
+                (Mx c Sb Ef n0 + sdurN c x <= now s)%N \/ late c (Mx c Sb Ef n0) s n0).
+      { intros x Hx. destruct (j_sched (jc c x)) eqn:Ea.
+        - left. unfold sdurN. rewrite Ea. lia.
+        - pose proof (F x Hx Ea) as Hh. pose proof (hF x Hx) as Hf. unfold hfin in Hf. unfold hd_ok in Hh.
+          destruct (hs (Hd s x)); try discriminate; auto. }
+      destruct (maxl_bound _ (sdurN c) _ (members c n0) A Hall) as [H1|H1].
+      + pose proof (shut_len_le_d c n0). lia.
+      + apply late_shut_len. exact H1.
+    - exfalso. apply Hne. apply hO.
+    - destruct (Nat.eq_dec n n0) as [->|Hn]; [|exfalso; apply Hne; apply hO; exact Hn].
+      apply late_shut_len. apply D. exact hSp.
+    - exfalso. apply Hne. apply hO.
+    - exfalso. apply Hne. apply hO.
   Qed.
 
   Lemma step_job x : x < njobs c -> x <> 0 -> on_schedule c Sb Ef s' x.
@@ -1034,7 +1272,7 @@ Section Step.
       rewrite (Ef_atomic c Sb Ef HS x Hx Ha). unfold durN. rewrite Hd. lia.
     - (* an empty scheduler begins and ends in the same step *)
       rewrite H5. cbn [st]. pose proof (created_Sb x Hx H0 H1) as Hge.
-      rewrite (Ef_sched c Sb Ef HS x Hx H3), H4. cbn. exact Hge.
+      rewrite (Ef_sched c Sb Ef HS x Hx H3), (shut_len_empty c x H4). unfold Mx. rewrite H4. cbn. lia.
     - (* the job ends *)
       rewrite H1 in IH. destruct IH as (IA & IB & IC0).
       assert (Hgoal : (Ef x <= now s)%N).
@@ -1044,10 +1282,7 @@ Section Step.
           { intro E. destruct (k_over c s I3 x H0 Ea E) as [Hf _]. rewrite H1 in Hf. discriminate. }
           destruct (over_step x Hno Ho') as [[Hi _]|Hsh].
           + exfalso. destruct (running_main_or_exit c Sb Ef s SD SC x H0 Ea H1) as [E|[E|E]]; rewrite E in Hi; discriminate.
-          + apply (Ef_le c Sb Ef HS x (now s) Hx Ea IA). intros m Hm.
-            pose proof (proj1 (In_members c x m) Hm) as (Hml & _ & Hm0).
-            apply (done_Ef c Sb Ef s SC m Hml Hm0).
-            apply (exit_members_done c Sb Ef s P SD SC x m); [right; left; exact Hsh|exact Hm].
+          + rewrite (Ef_sched c Sb Ef HS x Hx Ea). apply (finish_bound x Hsh Ho').
         - pose proof (atomic_done_at c s e s' x I8 Hs Hsub Ea H1 H2) as Htd.
           rewrite (IC0 eq_refl) in Htd. injection Htd as Htd. lia. }
       destruct (st (Jb s' x)); try discriminate; exact Hgoal.
@@ -1102,12 +1337,8 @@ Section Step.
     destruct (phase_eq_dec (ph (Rn s 0)) POver) as [E|E]; [apply (s_root_over c Sb Ef s SC E)|].
     rewrite (Ef_sched c Sb Ef HS 0 Hrl Hrs).
     destruct (over_step 0 E Ep') as [[_ Hm]|Hsh].
-    - rewrite Hm. cbn. rewrite (Sb_root c Sb Ef HS). lia.
-    - apply maxl_le; [rewrite (Sb_root c Sb Ef HS); lia|].
-      intros y Hy. apply in_map_iff in Hy. destruct Hy as (m & <- & Hm).
-      pose proof (proj1 (In_members c 0 m) Hm) as (Hml & _ & Hm0).
-      apply (done_Ef c Sb Ef s SC m Hml Hm0).
-      apply (exit_members_done c Sb Ef s P SD SC 0 m); [right; left; exact Hsh|exact Hm].
+    - rewrite (shut_len_empty c 0 Hm). unfold Mx. rewrite Hm. cbn. rewrite (Sb_root c Sb Ef HS). lia.
+    - apply (finish_bound 0 Hsh Ep').
   Qed.
 
   Lemma step_over_done n x : ph (Rn s' n) = POver -> In x (members c n) -> is_done (st (Jb s' x)) = true.
@@ -1182,6 +1413,164 @@ Section Step.
     - rewrite hB, Ed in Hd'. discriminate.
   Qed.
 
+  (* ---------- inside a shutdown phase ---------- *)
+
+  Lemma hd_ok_same M n x : Hd s' x = Hd s x -> hd_ok c M s n x -> hd_ok c M s' n x.
+  Proof.
+    assert (Hle : (now s <= now s')%N) by (rewrite En; lia).
+    intros E H. unfold hd_ok in *. rewrite E, En. destruct (hs (Hd s x)); auto.
+    - destruct H as [H1 H2]. split; [exact H1|]. intros Hc. apply (late_mono c M s s' n Hle (H2 Hc)).
+    - apply (late_mono c M s s' n Hle H).
+  Qed.
+
+  Lemma shut_keep n : ph (Rn s n) = PShut WSuccess -> Sd s' n = Sd s n ->
+    (forall x, In x (members c n) -> j_sched (jc c x) = false -> hd_ok c (Mx c Sb Ef n) s' n x) ->
+    shut_ok c Sb Ef s' n.
+  Proof.
+    assert (Hle : (now s <= now s')%N) by (rewrite En; lia).
+    intros Ep ES F'. destruct (s_shut c Sb Ef s SC n Ep) as (A & B & C & D & F).
+    unfold shut_ok. cbn zeta. rewrite ES, En. split; [exact A|]. split; [exact B|]. split; [exact C|].
+    split; [|exact F']. intros H. apply (late_mono c _ s s' n Hle (D H)).
+  Qed.
+
+  Lemma active_sched n : sd_active (sp (Sd s n)) -> sched_id c n = true.
+  Proof. intros H. apply (k_valid c s I8). apply (active_did c s n I8 H). Qed.
+
+  Lemma no_sd_cancel n : sd_thread c s n true -> sd_active (sp (Sd s n)) -> False.
+  Proof.
+    unfold sd_thread. intros H Ha. destruct (sd_inline s n).
+    - destruct (run_alive_true _ _ _ H) as (_ & _ & _ & _ & H1). rewrite Hcp in H1. discriminate.
+    - destruct H as [H _]. pose proof (active_sched n Ha) as Hsi. apply sched_id_iff in Hsi.
+      destruct Hsi as [Hsn _]. apply (s_hr c Sb Ef s SC n Hsn H).
+  Qed.
+
+  Lemma step_shut n : ph (Rn s' n) = PShut WSuccess -> shut_ok c Sb Ef s' n.
+  Proof.
+    intros Ep'.
+    assert (Hle : (now s <= now s')%N) by (rewrite En; lia).
+    assert (Hsi : sched_id c n = true) by (apply (t_validr c s' IT'); rewrite Ep'; discriminate).
+    apply sched_id_iff in Hsi. destruct Hsi as [Hsn Hn].
+    assert (Hpar : forall x n0, In x (members c n) -> In x (members c n0) -> n0 = n).
+    { intros x n0 H1 H2. apply In_members in H1, H2. destruct H1 as (_ & H1 & _), H2 as (_ & H2 & _). congruence. }
+    assert (Hatom : forall x n0, j_sched (jc c x) = false -> sched_id c n0 = true -> x <> n0).
+    { intros x n0 Ha Hs0 ->. apply sched_id_iff in Hs0. destruct Hs0 as [Hs0 _]. congruence. }
+    destruct (phase_eq_dec (ph (Rn s n)) (PShut WSuccess)) as [Ep|Ep].
+    - (* the phase goes on *)
+      destruct (s_shut c Sb Ef s SC n Ep) as (A & B & C & D & F).
+      assert (Hin : sd_inline s n = true) by (unfold sd_inline; rewrite Ep; reflexivity).
+      pose proof HH as H. hs_cases H.
+      + apply (shut_keep n Ep (hB n)). intros x Hx Ha. apply hd_ok_same; [apply hA|apply (F x Hx Ha)].
+      + assert (Hnn : n <> n0).
+        { intros ->. rewrite Ep in hPh. destruct hPh as [E|[w E]]; discriminate. }
+        apply (shut_keep n Ep).
+        * rewrite hB. unfold sd_create. apply Nat.eqb_neq in Hnn. rewrite Hnn. reflexivity.
+        * intros x Hx Ha. apply hd_ok_same; [|apply (F x Hx Ha)]. rewrite hA. unfold hd_create.
+          destruct (did (Sd s n0)); [reflexivity|]. destruct (memb x (members c n0)) eqn:Em; [|reflexivity].
+          exfalso. apply Hnn. symmetry. apply (Hpar x n0 Hx). apply memb_In. exact Em.
+      + assert (Hnn : n <> n0).
+        { intros ->. pose proof (sdstart_over n0 hG hSch) as Ho. rewrite Ep in Ho. discriminate. }
+        apply (shut_keep n Ep).
+        * rewrite hB. unfold sd_create. apply Nat.eqb_neq in Hnn. rewrite Hnn. reflexivity.
+        * intros x Hx Ha. apply hd_ok_same; [|apply (F x Hx Ha)]. rewrite hA.
+          pose proof (Hatom x n0 Ha hSch) as Hxn. apply Nat.eqb_neq in Hxn. rewrite Hxn. unfold hd_create.
+          destruct (did (Sd s n0)); [reflexivity|]. destruct (memb x (members c n0)) eqn:Em; [|reflexivity].
+          exfalso. apply Hnn. symmetry. apply (Hpar x n0 Hx). apply memb_In. exact Em.
+      + assert (Hnn : n <> n0).
+        { intros ->. rewrite Hin in hX. destruct hX as [E _]. rewrite E in Ep'. discriminate. }
+        apply (shut_keep n Ep).
+        * rewrite hB. apply Nat.eqb_neq in Hnn. rewrite Hnn. reflexivity.
+        * intros x Hx Ha. apply hd_ok_same; [|apply (F x Hx Ha)].
+          destruct (sd_inline s n0); destruct hX as [_ hX]; rewrite hX; [reflexivity|].
+          pose proof (Hatom x n0 Ha (active_sched n0 (or_introl hSp))) as Hxn. apply Nat.eqb_neq in Hxn.
+          rewrite Hxn. reflexivity.
+      + destruct (Nat.eq_dec n n0) as [<-|Hnn].
+        * (* the wait of n has expired: the handlers still pending are cancelled *)
+          assert (Hlate : late c (Mx c Sb Ef n) s' n).
+          { rewrite (C hSp) in hDl. destruct (j_sdto (jc c n)) as [to|] eqn:Eto; [|discriminate].
+            cbn [optN_add opt_le_now] in hDl. apply N.leb_le in hDl. exists to. split; [exact Eto|lia]. }
+          unfold shut_ok. cbn zeta. rewrite hB, Nat.eqb_refl, En. cbn [sp sdl].
+          split; [exact A|]. split; [exact B|]. split; [intros E; discriminate|]. split; [intros _; exact Hlate|].
+          intros x Hx Ha. destruct (memb x p0) eqn:Em; [|apply hd_ok_same; [rewrite hA, Em; reflexivity|apply (F x Hx Ha)]].
+          pose proof (F x Hx Ha) as Hh. unfold hd_ok in *. rewrite hA, Em.
+          apply memb_In in Em. apply hP in Em. destruct Em as [_ Hnf]. unfold hfin in Hnf.
+          unfold cancel_h. destruct (hs (Hd s x)) eqn:Ehx; try discriminate; cbn [hfinished hs hend hcp].
+          -- exact I.
+          -- exfalso. apply (stepped_not_created c s n x hSt Hx Ehx).
+          -- destruct Hh as [H1 _]. split; [exact H1|]. intros _. exact Hlate.
+        * apply (shut_keep n Ep).
+          -- rewrite hB. apply Nat.eqb_neq in Hnn. rewrite Hnn. reflexivity.
+          -- intros x Hx Ha. apply hd_ok_same; [|apply (F x Hx Ha)]. rewrite hA.
+             destruct (memb x p0) eqn:Em; [|reflexivity]. exfalso. apply Hnn. symmetry.
+             apply memb_In in Em. apply hP in Em. destruct Em as [Em _]. apply (Hpar x n0 Hx Em).
+      + assert (Hnn : n <> n0).
+        { intros ->. rewrite Hin in hX. destruct hX as [E _]. rewrite E in Ep'. discriminate. }
+        apply (shut_keep n Ep).
+        * rewrite hB. apply Nat.eqb_neq in Hnn. rewrite Hnn. reflexivity.
+        * intros x Hx Ha. apply hd_ok_same; [|apply (F x Hx Ha)].
+          destruct (sd_inline s n0); destruct hX as [_ hX]; rewrite hX; [reflexivity|].
+          pose proof (Hatom x n0 Ha (active_sched n0 (or_intror hSp))) as Hxn. apply Nat.eqb_neq in Hxn.
+          rewrite Hxn. reflexivity.
+      + exfalso. apply (no_sd_cancel n0 hTh). exact hSp.
+      + (* an event of one handler *)
+        apply (shut_keep n Ep (hB n)). intros x Hx Ha.
+        destruct (Nat.eqb_spec x j0) as [->|Hxj].
+        2:{ apply hd_ok_same; [|apply (F x Hx Ha)]. rewrite hA. apply Nat.eqb_neq in Hxj. rewrite Hxj. reflexivity. }
+        pose proof (F j0 Hx Ha) as Hh. unfold hd_ok in *.
+        assert (Ev : Hd s' j0 = v0) by (rewrite hA, Nat.eqb_refl; reflexivity).
+        pose proof (proj1 (In_members c n j0) Hx) as (Hjl & _ & _).
+        destruct hV as [(_ & E1 & E2 & E3)|[(_ & E1 & E2 & E3)|[(_ & E1 & E2 & E3)|(_ & E1 & E2 & E3)]]];
+          rewrite E1 in Hh; rewrite Ev, E3; cbn [hs hend hcp].
+        * (* it starts, in the instant the shutdown began *)
+          destruct (plain_atomic c P j0 Hjl Ha) as (_ & _ & (d & Hd0)). rewrite Hd0. cbn [optN_add].
+          unfold sdurN. rewrite Ha, Hd0. rewrite Hh. split; [reflexivity|intros; discriminate].
+        * (* it ends, at its deadline *)
+          destruct Hh as [H1 _].
+          assert (Ed : hs (Hd s' j0) = HDone) by (rewrite Ev, E3; reflexivity).
+          pose proof (handler_done_at c s e s' j0 W I8 Hs Ha E1 Ed) as Hend. rewrite H1 in Hend.
+          injection Hend as Hend. rewrite En. lia.
+        * destruct Hh as [_ H2]. apply (late_mono c _ s s' n Hle (H2 E2)).
+        * rewrite (k_fifo c s I8 j0 E1) in E2. discriminate.
+    - (* the phase begins: it is the instant M *)
+      assert (Hni : sd_inline s n = false).
+      { unfold sd_inline. destruct (Hok n) as [E|[E|[E|[E|E]]]]; rewrite E; try reflexivity. contradiction. }
+      assert (Hin' : sd_inline s' n = true) by (unfold sd_inline; rewrite Ep'; reflexivity).
+      assert (Hne : ph (Rn s' n) <> ph (Rn s n)) by (rewrite Ep'; intro E; apply Ep; symmetry; exact E).
+      pose proof HH as H. hs_cases H.
+      + rewrite hC in Hin'. congruence.
+      + destruct (Nat.eq_dec n n0) as [<-|Hnn]; [|exfalso; apply Hne; apply hO; exact Hnn].
+        assert (Hph : ph (Rn s n) = PMain \/ ph (Rn s n) = PTidy WSuccess).
+        { destruct hPh as [E|[w E]]; [left; exact E|right]. destruct (Hok n) as [E1|[E1|[E1|[E1|E1]]]]; rewrite E1 in E; try discriminate. exact E1. }
+        assert (Hnd : did (Sd s n) = false).
+        { destruct (did (Sd s n)) eqn:Ed; [exfalso|reflexivity].
+          destruct (k_phase c s I8 n Ed) as [H1|[H1|(H1 & _)]]; [congruence| |];
+            destruct Hph as [E|E]; rewrite E in H1; discriminate. }
+        assert (Hmne : members c n <> []).
+        { apply (p_members c s (sd_P c s SD) n); destruct Hph as [E|E]; rewrite E; discriminate. }
+        assert (HnowM : now s = Mx c Sb Ef n).
+        { pose proof (s_mainM c Sb Ef s SC n Hn Hsn Hph) as H1.
+          assert (H2 : (Mx c Sb Ef n <= now s)%N).
+          { apply Mx_le.
+            - apply (begun_Sb c Sb Ef s HS SD SC n Hn Hsn). destruct Hph as [E|E]; rewrite E; discriminate.
+            - intros m Hm. pose proof (proj1 (In_members c n m) Hm) as (Hml & _ & Hm0).
+              destruct (succ_all_seen c P s' n I1' I5' (or_intror Ep') m Hm) as [_ Hmd].
+              pose proof (step_job m Hml Hm0) as Hj. unfold on_schedule in Hj. rewrite En in Hj.
+              destruct (st (Jb s' m)); try discriminate; exact Hj. }
+          lia. }
+        unfold shut_ok. cbn zeta. rewrite hB. unfold sd_create. rewrite Nat.eqb_refl, Hnd. unfold sd_started.
+        destruct (members c n) as [|m0 ms] eqn:Em; [contradiction|]. rewrite <- Em. cbn [sp sdl]. rewrite En.
+        split; [lia|]. split; [lia|]. split; [intros _; rewrite HnowM; reflexivity|]. split; [intros E; discriminate|].
+        intros x Hx Ha. unfold hd_ok. rewrite hA. unfold hd_create. rewrite Hnd.
+        apply memb_In in Hx. rewrite Hx. cbn [create_h hs]. rewrite En. exact HnowM.
+      + exfalso. apply Hne. apply hO.
+      + exfalso. destruct (Nat.eq_dec n n0) as [<-|Hnn]; [|apply Hne; apply hO; exact Hnn].
+        rewrite Hni in hX. destruct hX as [E _]. apply Hne. exact E.
+      + exfalso. apply Hne. apply hO.
+      + exfalso. destruct (Nat.eq_dec n n0) as [<-|Hnn]; [|apply Hne; apply hO; exact Hnn].
+        rewrite Hni in hX. destruct hX as [E _]. apply Hne. exact E.
+      + exfalso. apply Hne. apply hO.
+      + exfalso. apply Hne. apply hO.
+  Qed.
+
   Hypothesis Hcalm : calm c Ef s'.
 
   Lemma step_nce x : crit_exc c s' x = false.
@@ -1219,7 +1608,8 @@ Section Step.
     - apply step_did.
     - apply step_nce.
     - apply step_expi.
-    - apply step_root_main.
+    - apply step_mainM.
+    - apply step_shut.
   Qed.
 End Step.
 
@@ -1236,7 +1626,7 @@ Qed.
 Lemma calm_back c Ef s s' : (now s <= now s')%N -> calm c Ef s' -> calm c Ef s.
 Proof. intros Hle Hc x Hx Hb. specialize (Hc x Hx Hb). lia. Qed.
 
-Theorem Sch_reach c Sb Ef h s : wf c = true -> plainT c = true -> is_schedule c Sb Ef -> slack c Sb Ef ->
+Theorem Sch_reach c Sb Ef h s : wf c = true -> plainH c = true -> is_scheduleH c Sb Ef -> slackH c Sb Ef ->
   Reach 3 c h s -> calm c Ef s -> Sch c Sb Ef s.
 Proof.
   intros W P HS SL Hr. revert h s Hr. apply (reach_ind 3 c (fun _ s => calm c Ef s -> Sch c Sb Ef s)).
@@ -1251,18 +1641,220 @@ Proof.
     + apply (Sch_step c Sb Ef s s' e W P HS SL SD SD' SC Hs Et Hc').
 Qed.
 
-(* ------------------------------------------------------------------ trees with timeouts (C08) *)
+(* ------------------------------------------------------------------ shutdown handlers that take time *)
 
-(* C08/C10/C12 in closed form: as long as no critical job has reached the instant at which it
-   raises, every job of a tree whose timeouts are longer than the scheduled runs is where the
-   schedule OF THE TREE WITHOUT ITS TIMEOUTS says ([is_schedule] does not mention timeouts) *)
-Theorem runs_on_schedule_timeouts c S E h s :
-  wf c = true -> plainT c = true -> is_schedule c S E -> slack c S E ->
+(* as long as no critical job has reached the instant at which it raises, every job is where the
+   schedule WITH SHUTDOWN PHASES says: a nested scheduler ends, for the jobs that require it,
+   shut_len after the end of its main loop *)
+Theorem runs_on_scheduleH c S E h s :
+  wf c = true -> plainH c = true -> is_scheduleH c S E -> slackH c S E ->
   Reach 3 c h s -> calm c E s ->
   forall x, x < njobs c -> x <> 0 -> on_schedule c S E s x.
 Proof.
   intros W P HS SL Hr Hc x Hx H0. apply (s_job c S E s (Sch_reach c S E h s W P HS SL Hr Hc) x Hx H0).
 Qed.
+
+(* everything about the phases of one run, M being the end of its main loop *)
+Lemma phases_general c S E h s :
+  wf c = true -> plainH c = true -> is_scheduleH c S E -> slackH c S E ->
+  Reach 3 c h s -> calm c E s ->
+  forall n, n < njobs c -> j_sched (jc c n) = true ->
+    let M := Mx c S E n in
+    (ph (Rn s n) = PIdle -> (now s <= S n)%N) /\
+    (ph (Rn s n) <> PIdle -> (S n <= now s)%N) /\
+    okph (ph (Rn s n)) /\
+    (ph (Rn s n) = PMain \/ ph (Rn s n) = PTidy WSuccess -> (now s <= M)%N) /\
+    (ph (Rn s n) = PTidy WSuccess \/ ph (Rn s n) = PShut WSuccess \/ ph (Rn s n) = POver -> (M <= now s)%N) /\
+    (ph (Rn s n) = PShut WSuccess -> (now s <= M + shut_len c n)%N) /\
+    (ph (Rn s n) = POver -> (M + shut_len c n <= now s)%N) /\
+    E n = (M + shut_len c n)%N.
+Proof.
+  intros W P HS SL Hr Hc n Hn Hs. cbn zeta.
+  pose proof (Sch_reach c S E h s W P HS SL Hr Hc) as SC.
+  pose proof (Std_reach c h s W Hr) as SD.
+  split; [apply (idle_Sb c S E s SD SC n Hn Hs)|].
+  split; [apply (begun_Sb c S E s HS SD SC n Hn Hs)|].
+  split; [apply (s_ph c S E s SC n)|].
+  split; [apply (s_mainM c S E s SC n Hn Hs)|].
+  split.
+  { intros Hex. apply Mx_le.
+    - apply (begun_Sb c S E s HS SD SC n Hn Hs). destruct Hex as [H|[H|H]]; rewrite H; discriminate.
+    - intros m Hm. pose proof (proj1 (In_members c n m) Hm) as (Hml & _ & Hm0).
+      apply (done_Ef c S E s SC m Hml Hm0). apply (exit_members_done c S E s P SD SC n m Hex Hm). }
+  split; [intros Ep; destruct (s_shut c S E s SC n Ep) as (_ & B & _); exact B|].
+  split; [|apply (Ef_sched c S E HS n Hn Hs)].
+  intros Ep. rewrite <- (Ef_sched c S E HS n Hn Hs). apply (over_Ef c S E s SD SC n Hn Hs Ep).
+Qed.
+
+(* the phases of every run, the root included: main loop from S n to M, shutdown phase from M to
+   M + shut_len (the tidy phase in between is never reached: nothing is left to cancel) *)
+Theorem shutdown_phase_on_schedule c S E h s :
+  wf c = true -> plainH c = true -> is_scheduleH c S E -> slackH c S E ->
+  Reach 3 c h s -> calm c E s ->
+  forall n, n < njobs c -> j_sched (jc c n) = true ->
+    let M := maxl (S n) (map E (members c n)) in
+    (ph (Rn s n) = PMain -> (S n <= now s)%N /\ (now s <= M)%N) /\
+    (ph (Rn s n) = PShut WSuccess -> (M <= now s)%N /\ (now s <= M + shut_len c n)%N) /\
+    (ph (Rn s n) = POver -> (M + shut_len c n <= now s)%N /\ (n <> 0 -> (E n <= now s)%N)) /\
+    okph (ph (Rn s n)).
+Proof.
+  intros W P HS SL Hr Hc n Hn Hs. cbn zeta.
+  destruct (phases_general c S E h s W P HS SL Hr Hc n Hn Hs) as (A1 & A2 & A3 & A4 & A5 & A6 & A7 & A8).
+  unfold Mx in *. split; [|split; [|split; [|exact A3]]].
+  - intros Ep. split; [apply A2; rewrite Ep; discriminate|apply A4; left; exact Ep].
+  - intros Ep. split; [apply A5; right; left; exact Ep|apply A6; exact Ep].
+  - intros Ep. split; [apply A7; exact Ep|]. intros _. rewrite A8. apply A7. exact Ep.
+Qed.
+
+(* the shutdown wait, the handlers: what [shut_len] is made of *)
+Theorem shutdown_phase_details c S E h s :
+  wf c = true -> plainH c = true -> is_scheduleH c S E -> slackH c S E ->
+  Reach 3 c h s -> calm c E s ->
+  forall n, ph (Rn s n) = PShut WSuccess -> shut_ok c S E s n.
+Proof.
+  intros W P HS SL Hr Hc n Ep. apply (s_shut c S E s (Sch_reach c S E h s W P HS SL Hr Hc) n Ep).
+Qed.
+
+Theorem timeouts_never_fireH c S E h s :
+  wf c = true -> plainH c = true -> is_scheduleH c S E -> slackH c S E ->
+  Reach 3 c h s -> calm c E s ->
+  forall n, n < njobs c -> j_sched (jc c n) = true ->
+    okph (ph (Rn s n)) /\
+    (ph (Rn s n) = PMain -> forall T, j_timeout (jc c n) = Some T ->
+       expi (Rn s n) = Some (S n + T)%N /\ (now s <= Mx c S E n)%N /\ (Mx c S E n < S n + T)%N).
+Proof.
+  intros W P HS SL Hr Hc n Hn Hs. pose proof (Sch_reach c S E h s W P HS SL Hr Hc) as SC.
+  split; [apply (s_ph c S E s SC n)|]. intros Ep T HT.
+  split; [rewrite (s_expi c S E s SC n Ep), HT; reflexivity|].
+  split; [apply (s_mainM c S E s SC n Hn Hs); left; exact Ep|apply (SL n T Hn Hs HT)].
+Qed.
+
+Corollary not_started_beforeH c S E h s x :
+  wf c = true -> plainH c = true -> is_scheduleH c S E -> slackH c S E ->
+  Reach 3 c h s -> calm c E s -> x < njobs c -> x <> 0 ->
+  (now s < S x)%N -> st (Jb s x) = Idle \/ st (Jb s x) = Created.
+Proof.
+  intros W P HS SL Hr Hc Hx H0 Hlt.
+  pose proof (runs_on_scheduleH c S E h s W P HS SL Hr Hc x Hx H0) as H. unfold on_schedule in H.
+  pose proof (Ef_ge_Sb c S E HS x Hx) as Hse.
+  destruct (st (Jb s x)); auto; try contradiction; exfalso; lia.
+Qed.
+
+Corollary running_betweenH c S E h s x :
+  wf c = true -> plainH c = true -> is_scheduleH c S E -> slackH c S E ->
+  Reach 3 c h s -> calm c E s -> x < njobs c -> x <> 0 ->
+  (S x < now s)%N -> (now s < E x)%N -> st (Jb s x) = Running.
+Proof.
+  intros W P HS SL Hr Hc Hx H0 Hlt1 Hlt2.
+  pose proof (runs_on_scheduleH c S E h s W P HS SL Hr Hc x Hx H0) as H. unfold on_schedule in H.
+  destruct (st (Jb s x)); auto; try contradiction; exfalso; lia.
+Qed.
+
+Corollary done_afterH c S E h s x :
+  wf c = true -> plainH c = true -> is_scheduleH c S E -> slackH c S E ->
+  Reach 3 c h s -> calm c E s -> x < njobs c -> x <> 0 ->
+  (E x < now s)%N -> is_done (st (Jb s x)) = true.
+Proof.
+  intros W P HS SL Hr Hc Hx H0 Hlt.
+  pose proof (runs_on_scheduleH c S E h s W P HS SL Hr Hc x Hx H0) as H. unfold on_schedule in H.
+  pose proof (Ef_ge_Sb c S E HS x Hx) as Hse.
+  destruct (st (Jb s x)); auto; try contradiction; exfalso; lia.
+Qed.
+
+Corollary calm_never_cancelsH c S E h s :
+  wf c = true -> plainH c = true -> is_scheduleH c S E -> slackH c S E ->
+  Reach 3 c h s -> calm c E s ->
+  (forall x, cp (Jb s x) = false) /\ (forall n, rcanc (Rn s n) = false) /\
+  (forall x, x < njobs c -> x <> 0 -> st (Jb s x) <> Cancelling /\ st (Jb s x) <> Cancelled) /\
+  (forall x, crit_exc c s x = false).
+Proof.
+  intros W P HS SL Hr Hc. pose proof (Sch_reach c S E h s W P HS SL Hr Hc) as SC.
+  split; [apply (s_cp c S E s SC)|]. split; [apply (s_rc c S E s SC)|].
+  split; [intros x Hx H0; apply (not_cancelled c S E s SC x Hx H0)|apply (s_nce c S E s SC)].
+Qed.
+
+Lemma is_scheduleHb_sound c lS lE : is_scheduleHb c lS lE = true -> is_scheduleH c (tab lS) (tab lE).
+Proof.
+  unfold is_scheduleHb. rewrite andb_true_iff, forallb_forall. intros [H0 H]. split; [apply N.eqb_eq; exact H0|].
+  intros x Hx. specialize (H x (proj2 (In_all_ids c x) Hx)). apply andb_true_iff in H. destruct H as [H1 H2].
+  split; [|split].
+  - intros Hx0. apply orb_true_iff in H1. destruct H1 as [H1|H1].
+    + apply Nat.eqb_eq in H1. contradiction.
+    + apply N.eqb_eq. exact H1.
+  - intros Ha. rewrite Ha in H2. apply N.eqb_eq. exact H2.
+  - intros Ha. rewrite Ha in H2. apply N.eqb_eq. exact H2.
+Qed.
+
+(* ------------------------------------------------------------------ handlers that take no time (C08) *)
+
+Section NoTime.
+  Variables (c : cfg) (S E : nat -> N).
+  Hypothesis P : plainT c = true.
+  Hypothesis HS : is_schedule c S E.
+  Hypothesis SL : slack c S E.
+
+  Let PH := plainT_plainH c P.
+  Let HSH := proj1 (plain_scheduleH c S E P) HS.
+  Let SLH := slack_slackH c S E HS SL.
+
+  Lemma Ef_is_Mx n : n < njobs c -> j_sched (jc c n) = true -> E n = Mx c S E n.
+  Proof. intros Hn Hs. pose proof HS as [_ H]. destruct (H n Hn) as (_ & _ & C). exact (C Hs). Qed.
+
+  (* C08/C10/C12 in closed form: as long as no critical job has reached the instant at which it
+     raises, every job of a tree whose timeouts are longer than the scheduled runs is where the
+     schedule OF THE TREE WITHOUT ITS TIMEOUTS says ([is_schedule] does not mention timeouts) *)
+  Theorem runs_on_schedule_timeouts0 h s : wf c = true -> Reach 3 c h s -> calm c E s ->
+    forall x, x < njobs c -> x <> 0 -> on_schedule c S E s x.
+  Proof. intros W. apply (runs_on_scheduleH c S E h s W PH HSH SLH). Qed.
+
+  Theorem timeouts_never_fire0 h s : wf c = true -> Reach 3 c h s -> calm c E s ->
+    forall n, n < njobs c -> j_sched (jc c n) = true ->
+      okph (ph (Rn s n)) /\
+      (ph (Rn s n) = PMain -> forall T, j_timeout (jc c n) = Some T -> expi (Rn s n) = Some (S n + T)%N).
+  Proof.
+    intros W Hr Hc n Hn Hs. destruct (timeouts_never_fireH c S E h s W PH HSH SLH Hr Hc n Hn Hs) as [A B].
+    split; [exact A|]. intros Ep T HT. apply (B Ep T HT).
+  Qed.
+
+  Corollary expiration_ahead0 h s : wf c = true -> Reach 3 c h s -> calm c E s ->
+    forall n T, n < njobs c -> j_sched (jc c n) = true -> j_timeout (jc c n) = Some T ->
+      ph (Rn s n) = PMain -> (now s <= E n)%N /\ (E n < S n + T)%N /\ expi (Rn s n) = Some (S n + T)%N.
+  Proof.
+    intros W Hr Hc n T Hn Hs HT Ep.
+    destruct (timeouts_never_fireH c S E h s W PH HSH SLH Hr Hc n Hn Hs) as [_ B].
+    destruct (B Ep T HT) as (B1 & B2 & B3). rewrite (Ef_is_Mx n Hn Hs). auto.
+  Qed.
+
+  Theorem runs_phases0 h s : wf c = true -> Reach 3 c h s -> calm c E s ->
+    forall n, n < njobs c -> j_sched (jc c n) = true ->
+      (ph (Rn s n) = PIdle -> (now s <= S n)%N) /\
+      (ph (Rn s n) = PMain -> (S n <= now s)%N) /\
+      (ph (Rn s n) = POver -> (E n <= now s)%N) /\
+      okph (ph (Rn s n)) /\
+      (ph (Rn s n) <> PIdle -> (S n <= now s)%N) /\
+      (ph (Rn s n) = PMain -> (now s <= E n)%N) /\
+      (ph (Rn s n) = PTidy WSuccess \/ ph (Rn s n) = PShut WSuccess ->
+       (E n <= now s)%N /\ (n <> 0 -> now s = E n)).
+  Proof.
+    intros W Hr Hc n Hn Hs.
+    destruct (phases_general c S E h s W PH HSH SLH Hr Hc n Hn Hs) as (A1 & A2 & A3 & A4 & A5 & A6 & A7 & A8).
+    rewrite (shut_len_plainT c n P) in *. rewrite <- (Ef_is_Mx n Hn Hs) in *.
+    split; [exact A1|]. split; [intros Ep; apply A2; rewrite Ep; discriminate|].
+    split; [intros Ep; pose proof (A7 Ep); lia|]. split; [exact A3|]. split; [exact A2|].
+    split; [intros Ep; apply A4; left; exact Ep|].
+    intros Hex.
+    assert (H1 : (E n <= now s)%N) by (apply A5; destruct Hex as [H|H]; auto).
+    split; [exact H1|]. intros _. destruct Hex as [H|H].
+    - pose proof (A4 (or_intror H)). lia.
+    - pose proof (A6 H). lia.
+  Qed.
+End NoTime.
+
+Theorem runs_on_schedule_timeouts c S E h s :
+  wf c = true -> plainT c = true -> is_schedule c S E -> slack c S E ->
+  Reach 3 c h s -> calm c E s ->
+  forall x, x < njobs c -> x <> 0 -> on_schedule c S E s x.
+Proof. intros W P HS SL. apply (runs_on_schedule_timeouts0 c S E P HS SL h s W). Qed.
 
 (* ... and no timeout ever fires: no run is ever in a timeout, critical or cancelled phase, and
    the expiration of a run in its main loop is T after the beginning S n of that very run (for the
@@ -1273,37 +1865,24 @@ Theorem timeouts_never_fire c S E h s :
   forall n, n < njobs c -> j_sched (jc c n) = true ->
     okph (ph (Rn s n)) /\
     (ph (Rn s n) = PMain -> forall T, j_timeout (jc c n) = Some T -> expi (Rn s n) = Some (S n + T)%N).
-Proof.
-  intros W P HS SL Hr Hc n Hn Hs. pose proof (Sch_reach c S E h s W P HS SL Hr Hc) as SC.
-  split; [apply (s_ph c S E s SC n)|]. intros Ep T HT. rewrite (s_expi c S E s SC n Ep), HT. reflexivity.
-Qed.
+Proof. intros W P HS SL. apply (timeouts_never_fire0 c S E P HS SL h s W). Qed.
 
 (* more precisely: while the run of n is in its main loop the clock is strictly before the
-   expiration; flags and verdicts: the run never records a timeout *)
+   expiration *)
 Corollary expiration_ahead c S E h s :
   wf c = true -> plainT c = true -> is_schedule c S E -> slack c S E ->
   Reach 3 c h s -> calm c E s ->
   forall n T, n < njobs c -> j_sched (jc c n) = true -> j_timeout (jc c n) = Some T ->
     ph (Rn s n) = PMain -> (now s <= E n)%N /\ (E n < S n + T)%N /\ expi (Rn s n) = Some (S n + T)%N.
-Proof.
-  intros W P HS SL Hr Hc n T Hn Hs HT Ep. pose proof (Sch_reach c S E h s W P HS SL Hr Hc) as SC.
-  pose proof (Std_reach c h s W Hr) as SD.
-  split; [|split; [apply (SL n T Hn Hs HT)|rewrite (s_expi c S E s SC n Ep), HT; reflexivity]].
-  destruct (Nat.eq_dec n 0) as [->|H0]; [apply (s_root_main c S E s SC Ep)|].
-  assert (Hst : st (Jb s n) = Running).
-  { apply (k_act c s (ic_3 c s (id_c c s (ie_d c s (sd_E c s SD)))) n H0 Hs); rewrite Ep; discriminate. }
-  pose proof (s_job c S E s SC n Hn H0) as H. unfold on_schedule in H. rewrite Hst in H. tauto.
-Qed.
+Proof. intros W P HS SL. apply (expiration_ahead0 c S E P HS SL h s W). Qed.
 
 Corollary not_started_before_timeouts c S E h s x :
   wf c = true -> plainT c = true -> is_schedule c S E -> slack c S E ->
   Reach 3 c h s -> calm c E s -> x < njobs c -> x <> 0 ->
   (now s < S x)%N -> st (Jb s x) = Idle \/ st (Jb s x) = Created.
 Proof.
-  intros W P HS SL Hr Hc Hx H0 Hlt.
-  pose proof (runs_on_schedule_timeouts c S E h s W P HS SL Hr Hc x Hx H0) as H. unfold on_schedule in H.
-  pose proof (Ef_ge_Sb c S E HS x Hx) as Hse.
-  destruct (st (Jb s x)); auto; try contradiction; exfalso; lia.
+  intros W P HS SL. apply (not_started_beforeH c S E h s x W (plainT_plainH c P)
+    (proj1 (plain_scheduleH c S E P) HS) (slack_slackH c S E HS SL)).
 Qed.
 
 Corollary running_between_timeouts c S E h s x :
@@ -1311,9 +1890,8 @@ Corollary running_between_timeouts c S E h s x :
   Reach 3 c h s -> calm c E s -> x < njobs c -> x <> 0 ->
   (S x < now s)%N -> (now s < E x)%N -> st (Jb s x) = Running.
 Proof.
-  intros W P HS SL Hr Hc Hx H0 Hlt1 Hlt2.
-  pose proof (runs_on_schedule_timeouts c S E h s W P HS SL Hr Hc x Hx H0) as H. unfold on_schedule in H.
-  destruct (st (Jb s x)); auto; try contradiction; exfalso; lia.
+  intros W P HS SL. apply (running_betweenH c S E h s x W (plainT_plainH c P)
+    (proj1 (plain_scheduleH c S E P) HS) (slack_slackH c S E HS SL)).
 Qed.
 
 Corollary done_after_timeouts c S E h s x :
@@ -1321,10 +1899,8 @@ Corollary done_after_timeouts c S E h s x :
   Reach 3 c h s -> calm c E s -> x < njobs c -> x <> 0 ->
   (E x < now s)%N -> is_done (st (Jb s x)) = true.
 Proof.
-  intros W P HS SL Hr Hc Hx H0 Hlt.
-  pose proof (runs_on_schedule_timeouts c S E h s W P HS SL Hr Hc x Hx H0) as H. unfold on_schedule in H.
-  pose proof (Ef_ge_Sb c S E HS x Hx) as Hse.
-  destruct (st (Jb s x)); auto; try contradiction; exfalso; lia.
+  intros W P HS SL. apply (done_afterH c S E h s x W (plainT_plainH c P)
+    (proj1 (plain_scheduleH c S E P) HS) (slack_slackH c S E HS SL)).
 Qed.
 
 (* nothing is ever cancelled in a calm run *)
@@ -1335,9 +1911,8 @@ Corollary calm_never_cancels_timeouts c S E h s :
   (forall x, x < njobs c -> x <> 0 -> st (Jb s x) <> Cancelling /\ st (Jb s x) <> Cancelled) /\
   (forall x, crit_exc c s x = false).
 Proof.
-  intros W P HS SL Hr Hc. pose proof (Sch_reach c S E h s W P HS SL Hr Hc) as SC.
-  split; [apply (s_cp c S E s SC)|]. split; [apply (s_rc c S E s SC)|].
-  split; [intros x Hx H0; apply (not_cancelled c S E s SC x Hx H0)|apply (s_nce c S E s SC)].
+  intros W P HS SL. apply (calm_never_cancelsH c S E h s W (plainT_plainH c P)
+    (proj1 (plain_scheduleH c S E P) HS) (slack_slackH c S E HS SL)).
 Qed.
 
 (* the run of every scheduler, the root included: it begins at S n, its main loop lasts until E n,
@@ -1355,33 +1930,7 @@ Theorem runs_phases_on_schedule_timeouts c S E h s :
     (ph (Rn s n) = PMain -> (now s <= E n)%N) /\
     (ph (Rn s n) = PTidy WSuccess \/ ph (Rn s n) = PShut WSuccess ->
      (E n <= now s)%N /\ (n <> 0 -> now s = E n)).
-Proof.
-  intros W P HS SL Hr Hc n Hn Hs.
-  pose proof (Sch_reach c S E h s W P HS SL Hr Hc) as SC.
-  pose proof (Std_reach c h s W Hr) as SD.
-  assert (Hrun : ph (Rn s n) <> PIdle -> ph (Rn s n) <> POver -> n <> 0 -> (now s <= E n)%N).
-  { intros H1 H2 H0.
-    pose proof (k_act c s (ic_3 c s (id_c c s (ie_d c s (sd_E c s SD)))) n H0 Hs H1 H2) as Hst.
-    pose proof (s_job c S E s SC n Hn H0) as H. unfold on_schedule in H. rewrite Hst in H. tauto. }
-  split; [apply (idle_Sb c S E s SD SC n Hn Hs)|].
-  split; [intros Ep; apply (begun_Sb c S E s HS SD SC n Hn Hs); rewrite Ep; discriminate|].
-  split; [apply (over_Ef c S E s SD SC n Hn Hs)|].
-  split; [apply (s_ph c S E s SC n)|].
-  split; [apply (begun_Sb c S E s HS SD SC n Hn Hs)|].
-  split.
-  { intros Ep. destruct (Nat.eq_dec n 0) as [->|H0]; [apply (s_root_main c S E s SC Ep)|].
-    apply Hrun; [rewrite Ep; discriminate|rewrite Ep; discriminate|exact H0]. }
-  intros Hex.
-  assert (Hle : (E n <= now s)%N).
-  { apply (Ef_le c S E HS n (now s) Hn Hs).
-    - apply (begun_Sb c S E s HS SD SC n Hn Hs). destruct Hex as [H|H]; rewrite H; discriminate.
-    - intros m Hm. pose proof (proj1 (In_members c n m) Hm) as (Hml & _ & Hm0).
-      apply (done_Ef c S E s SC m Hml Hm0).
-      apply (exit_members_done c S E s P SD SC n m); [|exact Hm]. destruct Hex as [H|H]; auto. }
-  split; [exact Hle|]. intros H0.
-  assert (Hge : (now s <= E n)%N) by (apply Hrun; [destruct Hex as [H|H]; rewrite H; discriminate|destruct Hex as [H|H]; rewrite H; discriminate|exact H0]).
-  lia.
-Qed.
+Proof. intros W P HS SL. apply (runs_phases0 c S E P HS SL h s W). Qed.
 
 (* ------------------------------------------------------------------ trees without timeouts *)
 
@@ -1454,6 +2003,8 @@ Print Assumptions runs_on_schedule.
 Print Assumptions runs_phases_on_schedule.
 Print Assumptions runs_on_schedule_timeouts.
 Print Assumptions timeouts_never_fire.
+Print Assumptions runs_on_scheduleH.
+Print Assumptions shutdown_phase_on_schedule.
 
 (* ------------------------------------------------------------------ the boolean check of a schedule *)
 
@@ -1633,3 +2184,127 @@ Module ExampleT.
       apply (runs_on_schedule_timeouts ex_c ex_S ex_E (firstn 12 ex_h) s ex_wf ex_plainT ex_sched ex_slack Er (ex_calm s)); assumption.
   Qed.
 End ExampleT.
+
+(* ------------------------------------------------------------------ non-vacuity with slow handlers *)
+
+Module ExampleH.
+  (* root { m { x: 1 s, co_shutdown 2 s } (shutdown_timeout 5 s) ; y requires m (1 s) }: the handler
+     of x keeps m busy from 1 to 3, so y runs from 3 to 4 (finding F10) *)
+  Definition ex_c : cfg :=
+    mkCfg
+      [mkJ 0 true true false [] None ORet 0%N None 0 None None;
+       mkJ 0 true true false [] None ORet 0%N None 0 None (Some 5%N);
+       mkJ 1 false false false [] (Some 1%N) ORet 0%N (Some 2%N) 0 None None;
+       mkJ 0 false true false [1] (Some 1%N) ORet 0%N (Some 0%N) 0 None None]
+      false.
+
+  Definition ex_h : list event :=
+    [EBegin 0 [OCreate 1; OWaitCall 0 KMain [1] None];
+     EBegin 1 [OCreate 2; OWaitCall 1 KMain [2] None];
+     EStart 2;
+     ETick 1%N;
+     EFinish 2 ORet;
+     EWake 1 KMain [2] [OSdBegin 1 true; OHCreate 2; OWaitCall 1 KShut [2] (Some 5%N)];
+     EHStart 2;
+     ETick 3%N;
+     EHEnd 2;
+     EWake 1 KShut [] [OSdEnd 1 SRTrue; OEnd 1 VTrue];
+     EWake 0 KMain [1] [OCreate 3; OWaitCall 0 KMain [3] None];
+     EStart 3;
+     ETick 4%N;
+     EFinish 3 ORet;
+     EWake 0 KMain [3] [OSdBegin 0 true; OHCreate 1; OHCreate 3; OWaitCall 0 KShut [1; 3] None];
+     ESdStart 1 [OSdBegin 1 false; OSdEnd 1 SRNone];
+     EHStart 3;
+     EHEnd 3;
+     EWake 0 KShut [] [OSdEnd 0 SRTrue; OEnd 0 VTrue]].
+
+  Definition ex_S : nat -> N := tab (fst (solveH ex_c)).
+  Definition ex_E : nat -> N := tab (snd (solveH ex_c)).
+
+  Lemma ex_wf : wf ex_c = true. Proof. reflexivity. Qed.
+  Lemma ex_not_plainT : plainT ex_c = false. Proof. reflexivity. Qed.
+  Lemma ex_plainH : plainH ex_c = true. Proof. reflexivity. Qed.
+  Lemma ex_accept : accept 3 ex_c ex_h = true. Proof. vm_compute. reflexivity. Qed.
+  Lemma ex_sched : is_scheduleH ex_c ex_S ex_E.
+  Proof. apply is_scheduleHb_sound. vm_compute. reflexivity. Qed.
+  Lemma ex_slack : slackH ex_c ex_S ex_E.
+  Proof. intros n T Hn _ HT. exfalso. unfold njobs in Hn. cbn in Hn.
+    do 4 (destruct n as [|n]; [discriminate|]). lia. Qed.
+  Lemma ex_values : map ex_S [0; 1; 2; 3] = [0; 0; 0; 3]%N /\ map ex_E [0; 1; 2; 3] = [4; 3; 1; 4]%N /\
+                    shut_len ex_c 1 = 2%N /\ shut_len ex_c 0 = 0%N.
+  Proof. vm_compute. repeat split; reflexivity. Qed.
+  Lemma ex_y_starts_at_3 : ex_S 3 = 3%N. Proof. vm_compute. reflexivity. Qed.
+  (* the equations without shutdown phases would start y at 1 *)
+  Lemma ex_y_without_phase : tab (fst (solve ex_c)) 3 = 1%N. Proof. vm_compute. reflexivity. Qed.
+
+  Lemma ex_calm s : calm ex_c ex_E s.
+  Proof.
+    intros x Hx Hb. exfalso. unfold njobs in Hx. cbn in Hx.
+    do 4 (destruct x as [|x]; [vm_compute in Hb; discriminate|]). lia.
+  Qed.
+
+  (* at time 3, before the handler of x has ended: m is in its shutdown phase, still running as a
+     job of the root, and y has not been created *)
+  Example ex_mid : exists s, Reach 3 ex_c (firstn 8 ex_h) s /\ now s = 3%N /\
+    ph (Rn s 1) = PShut WSuccess /\ st (Jb s 1) = Running /\ st (Jb s 2) = DoneRet RVOwn /\ st (Jb s 3) = Idle /\
+    (forall x, x < 4 -> x <> 0 -> on_schedule ex_c ex_S ex_E s x) /\
+    (Mx ex_c ex_S ex_E 1 <= now s)%N /\ (now s <= Mx ex_c ex_S ex_E 1 + shut_len ex_c 1)%N.
+  Proof.
+    destruct (run 3 ex_c init (firstn 8 ex_h)) as [s|] eqn:Er; [|vm_compute in Er; discriminate].
+    exists s. split; [exact Er|].
+    assert (Es : Some s = run 3 ex_c init (firstn 8 ex_h)) by (symmetry; exact Er).
+    vm_compute in Es. injection Es as Es.
+    assert (E1 : ph (Rn s 1) = PShut WSuccess) by (rewrite Es; reflexivity).
+    split; [rewrite Es; reflexivity|]. split; [exact E1|].
+    split; [rewrite Es; reflexivity|]. split; [rewrite Es; reflexivity|]. split; [rewrite Es; reflexivity|].
+    split.
+    - intros x Hx H0.
+      apply (runs_on_scheduleH ex_c ex_S ex_E (firstn 8 ex_h) s ex_wf ex_plainH ex_sched ex_slack Er (ex_calm s)); assumption.
+    - destruct (shutdown_phase_details ex_c ex_S ex_E (firstn 8 ex_h) s ex_wf ex_plainH ex_sched ex_slack Er (ex_calm s) 1 E1)
+        as (A & B & _). split; [exact A|exact B].
+  Qed.
+End ExampleH.
+
+(* the same tree with shutdown_timeout 1 s on m: the wait of m expires at 2, the handler of x is
+   cancelled, m ends at 2 and y runs from 2 to 3 *)
+Module ExampleHcut.
+  Definition ex_c : cfg :=
+    mkCfg
+      [mkJ 0 true true false [] None ORet 0%N None 0 None None;
+       mkJ 0 true true false [] None ORet 0%N None 0 None (Some 1%N);
+       mkJ 1 false false false [] (Some 1%N) ORet 0%N (Some 2%N) 0 None None;
+       mkJ 0 false true false [1] (Some 1%N) ORet 0%N (Some 0%N) 0 None None]
+      false.
+
+  Definition ex_h : list event :=
+    [EBegin 0 [OCreate 1; OWaitCall 0 KMain [1] None];
+     EBegin 1 [OCreate 2; OWaitCall 1 KMain [2] None];
+     EStart 2;
+     ETick 1%N;
+     EFinish 2 ORet;
+     EWake 1 KMain [2] [OSdBegin 1 true; OHCreate 2; OWaitCall 1 KShut [2] (Some 1%N)];
+     EHStart 2;
+     ETick 2%N;
+     EWake 1 KShut [2] [OWaitCall 1 KShTidy [2] None];
+     EHCancel 2;
+     EWake 1 KShTidy [] [OSdEnd 1 SRFalse; OEnd 1 VTrue];
+     EWake 0 KMain [1] [OCreate 3; OWaitCall 0 KMain [3] None];
+     EStart 3;
+     ETick 3%N;
+     EFinish 3 ORet;
+     EWake 0 KMain [3] [OSdBegin 0 true; OHCreate 1; OHCreate 3; OWaitCall 0 KShut [1; 3] None];
+     ESdStart 1 [OSdBegin 1 false; OSdEnd 1 SRNone];
+     EHStart 3;
+     EHEnd 3;
+     EWake 0 KShut [] [OSdEnd 0 SRTrue; OEnd 0 VTrue]].
+
+  Lemma ex_wf : wf ex_c = true. Proof. reflexivity. Qed.
+  Lemma ex_plainH : plainH ex_c = true. Proof. reflexivity. Qed.
+  Lemma ex_accept : accept 3 ex_c ex_h = true. Proof. vm_compute. reflexivity. Qed.
+  Lemma ex_sched : is_scheduleH ex_c (tab (fst (solveH ex_c))) (tab (snd (solveH ex_c))).
+  Proof. apply is_scheduleHb_sound. vm_compute. reflexivity. Qed.
+  Lemma ex_values : map (tab (fst (solveH ex_c))) [0; 1; 2; 3] = [0; 0; 0; 2]%N /\
+                    map (tab (snd (solveH ex_c))) [0; 1; 2; 3] = [3; 2; 1; 3]%N /\ shut_len ex_c 1 = 1%N.
+  Proof. vm_compute. repeat split; reflexivity. Qed.
+End ExampleHcut.
